@@ -14,5 +14,5 @@ trap "git -C /repo worktree remove --force $wt; rm -rf /tmp/wt/smt_$$" EXIT
 git -C $wt apply $patch || { echo "NOAPPLY $patch"; exit 2; }
 for p in "$@"; do
   out=$(cd $V && ./bin/govc verify --property $p --tier quick --repo $wt --no-evidence --smtdir /tmp/wt/smt_$$ 2>&1 | grep -v "^WARNING conda")
-  if echo "$out" | grep -q "VIOLATION\|UNDECIDED\|rror"; then echo "ALARM $patch $p"; echo "$out" | grep "VIOLATION\|UNDECIDED\|rror\|FAILED" | cut -c1-330 | head -6; else echo "clean $patch $p $(echo "$out" | grep '^property=' | sed 's/.*obligations=/obl=/;s/ covers.*//')"; fi
+  if echo "$out" | grep -v "^KNOWN-FINDING" | grep -q "VIOLATION\|UNDECIDED\|rror"; then echo "ALARM $patch $p"; echo "$out" | grep "VIOLATION\|UNDECIDED\|rror\|FAILED" | cut -c1-330 | head -6; else echo "clean $patch $p $(echo "$out" | grep '^property=' | sed 's/.*obligations=/obl=/;s/ covers.*//')"; fi
 done
